@@ -236,7 +236,7 @@ def _traversal(ev, L, fam, fname, depth):
     if [n for n, _ in L.stages if n not in ("enumerate",)]:
         raise _Bad("elements pass through %s before being handled (%s)" % ([n for n, _ in L.stages], site), site)
     # a `for (i, x) in it.enumerate()` loop yields pairs; in a modelled chain the pair is already taken apart
-    epath = ["#1"] if (L.kind == "for" and (L.iter_ty or "").startswith("std::iter::Enumerate<")) else []
+    epath = ["#1"] if (L.kind == "for" and not L.enumerated and (L.iter_ty or "").startswith("std::iter::Enumerate<")) else []
     counts = set()
     shape = None
     sites = [site]
